@@ -24,6 +24,7 @@ def valid_files(ctx, sch, rng, n):
         if outs: files.append(bytes.fromhex(outs[-1][4:]))
     return files
 
+DEEP = set()      # mutants nested deeper than 2000: implementation only (the model's nested binds are quadratic in the depth)
 def mutants(files, rng, n):
     res = []
     bombs = [bytes.fromhex("5b0000001000000000") + b"ab", bytes.fromhex("5bffffffffffffffff"), bytes.fromhex("7b0000000100000000"), bytes.fromhex("9b0000000100000000"),
@@ -42,6 +43,7 @@ def mutants(files, rng, n):
             pos = rng.randrange(len(f)); m = f[:pos] + rng.choice(bombs) + f[pos + rng.choice([0, 1, 9]):]
         elif r < 0.80:
             pos = rng.randrange(len(f)); d = rng.choice([2000, 60000]); m = f[:pos] + cborgen.nest(d, rng.choice(["arr1", "iarr", "tag", "map1"])) + f[pos:]
+            if d > 2000: DEEP.add(m)
         elif r < 0.85: m = bytes(rng.getrandbits(8) for _ in range(rng.choice([0, 1, 10, 200])))
         else: m = f
         res.append(m)
@@ -60,8 +62,10 @@ def run(ctx):
         ops = [rng.choice(OPS) for _ in range(rng.choice([1, 3, 8]))]
         exact.append({"id": "d%d" % i, "script": ["D new %s %s" % (rng.choice(["ss", "fs"]), data.hex() or "-")] + ops + ["D rest"], "expect": None, "meta": {"kind": "decoder-ops"}})
     # (b) the file reader + generic accessors on mutated files: outcome compared up to the exception class
+    deep = []
     for i, m in enumerate(muts):
-        loose.append({"id": "m%d" % i, "script": ["F read " + (m.hex() or "-")], "expect": None, "meta": {"kind": "reader/mutant"}})
+        (deep if m in DEEP else loose).append({"id": "m%d" % i, "script": ["F read " + (m.hex() or "-")], "expect": None,
+                                                "meta": {"kind": "reader/mutant-deep" if m in DEEP else "reader/mutant"}})
     # (e) inputs longer than the decoder window (65535 bytes): truncated inside a long string, length fields inflated beyond the input
     big = []
     for k in range(3 if tier == "quick" else 20):
@@ -104,7 +108,8 @@ def run(ctx):
     d1, f1 = common.run_expect(ctx, exact, batch=50, impl_env=env)
     d2, f2 = common.run_expect(ctx, loose, batch=25, impl_env=env, canon=loosen)
     d3, f3 = common.run_expect(ctx, rend, batch=50, impl_env=env, impl_only=True)
-    diffs, fails = d1 + d2, f1 + f2 + f3
+    d4, f4 = common.run_expect(ctx, deep, batch=10, impl_env=env, impl_only=True)
+    diffs, fails = d1 + d2, f1 + f2 + f3 + f4
     # (d) the five command-line tools on mutated files: normal exit, a diagnostic at most, no sanitizer report, bounded time
     tools = ["cdns_blocks", "cdns_items", "cdns_preamble", "cdns_itemcount", "cdns_merge"]
     root = tempfile.mkdtemp(prefix="c03.", dir=common.scratch_root())
@@ -129,7 +134,7 @@ def run(ctx):
             if rc != 0 or "Sanitizer" in err or "runtime error:" in err:
                 fails.append((c["id"], c, "%s on a malformed file: exit status %d %s" % (tool, rc, " ".join(err.split())[-300:]), []))
     shutil.rmtree(root, ignore_errors=True)
-    cases = exact + loose + rend
+    cases = exact + loose + rend + deep
     common.summarize_cov(rep, cases,
         "(a) sequences of decoder operations on random bytes, truncated well-formed items and file mutants (compared exactly with the model: "
         "values, exception class, remaining input); (b) CdnsReader + read_generic_* on mutants of exporter-produced files - structure-aware "
